@@ -28,10 +28,20 @@ func (c *Ctx) recordLexTracesPartial(b *LexBatch, inputs [][][]byte, resets, par
 	for i, cs := range b.Cases {
 		ops = append(ops, lexOp{Op: "scan", G: cs.Sub, Inputs: inputs[i], Resets: resets, Extra: 2, Partial: partial})
 	}
-	res, stdout := b.Drv.Run(ops)
-	var dbgScans map[[2]int][][]dbgScan
-	if dbg {
-		dbgScans = parseDebugLexer(stdout)
+	// a dozen grammars per process: the debug output of a thorough run is larger than what is
+	// kept of one child's output
+	var res []lexRes
+	dbgScans := map[[2]int][][]dbgScan{}
+	const chunk = 12
+	for lo := 0; lo < len(ops); lo += chunk {
+		hi := min(lo+chunk, len(ops))
+		r, stdout := b.Drv.Run(ops[lo:hi])
+		res = append(res, r...)
+		if dbg {
+			for k, v := range parseDebugLexer(stdout) {
+				dbgScans[[2]int{k[0] + lo, k[1]}] = v
+			}
+		}
 	}
 	var jobs []*lexTraceJob
 	id := 0
